@@ -105,6 +105,17 @@ CHECKS["C17"] = dict(
          "real temporary directory. Outside: directories at marker paths, concurrent clients, identifier stability when the "
          "configuration directory does not exist (write_to_disk ignores missing directories by design).")
 
+CHECKS["C16"] = dict(
+    text="Bounded symbolic execution of the real InsightsConfig loading / implication / validation code: InsightsConfig(**kw) with "
+         "15 (quick) / all boolean options read by _imply_options/_validate_options (thorough; list computed from the methods' AST) "
+         "as symbolic booleans x 6 output_dir x 6 output_file situations x payload: whenever construction succeeds the solver must "
+         "prove the offline / output-location / obfuscation implications and that no conflicting request was accepted; load_all() "
+         "for every option name x every subset of {file, env, CLI} x boolean spellings, numeric environment values as symbolic "
+         "digit strings: CLI > env > file > default, unknown names never become settings nor clobber methods.",
+    note="Stubs: os.environ of the config module is a private mapping, sys.argv and a scratch config file per path; output "
+         "location probes run on a prepared scratch directory. Outside: app/compliance manifests, argparse/ConfigParser internals, "
+         "the --conf option, several options set simultaneously through load_all.")
+
 NOT_APPLICABLE = {
 }
 
